@@ -1,7 +1,9 @@
 (* C08 -- no API call crashes the host; errors are reported and recoverable.  Statements only.
    What is proved is about the models of the shift/reduce parser core (C03), the navigation state machine (C11), the
    preference maps (C12) and their composition into one session; everything else on the paths from the interface
-   (clean-up passes, chemistry, intent, XPath evaluation, braille back ends) is decided by the history oracle only. *)
+   (clean-up passes, chemistry, intent, XPath evaluation, braille back ends) is decided by the history oracle only.
+   A key press (CKey) is a call of the session model: the key is translated by the table regenerated from the source
+   (Model/KeyPress.v), then the command runs on the navigation model. *)
 From MC Require Import Lib.Base Lib.Tree Gen.OpDict Model.ParserCore Model.Parser Model.ParserSpec
      Proofs.ParserP Proofs.ParserGood Proofs.ParserTotal Model.Prefs Model.Nav Model.Session Proofs.PrefsP Proofs.NavP Proofs.SessionP
      Gen.KeyTab Model.KeyPress Proofs.KeyPressP.
@@ -77,7 +79,13 @@ Theorem key_press_names_a_known_command : forall k sh ct al me s, press k sh ct 
 Proof. exact L_press_names_a_command. Qed.
 Print Assumptions key_press_names_a_known_command.
 
-(* a key no arm of the table mentions, and any key with Meta, is refused *)
+(* a key with Alt (but an arrow key with Control as well) or with Meta is refused *)
+Theorem alt_and_meta_are_refused : forall k sh ct al me,
+  (al = true /\ ct && memN k alt_control_keys = false) \/ me = true -> press k sh ct al me = PErr.
+Proof. exact L_alt_and_meta_are_refused. Qed.
+Print Assumptions alt_and_meta_are_refused.
+
+(* a key no arm of the table mentions is refused *)
 Theorem unlisted_keys_are_refused : forall k sh ct al me, ~ In k arm_keys -> press k sh ct al me = PErr.
 Proof. exact L_unlisted_key_is_refused. Qed.
 Print Assumptions unlisted_keys_are_refused.
